@@ -148,7 +148,7 @@ pub fn par_items<T: Sync>(
                         if i < items.len() {
                             on_hang(&items[i]);
                         }
-                        std::process::exit(1);
+                        hard_exit(1);
                     }
                 }
             });
@@ -185,6 +185,34 @@ pub fn par_items<T: Sync>(
         total.merge(st);
     }
     total
+}
+
+/// Leave the process at once: workers may be stuck in loops that never return, and the regular
+/// exit path (atexit handlers, joining) was seen to leave such a process behind as a zombie with
+/// spinning threads.
+pub fn hard_exit(code: i32) -> ! {
+    use std::io::Write;
+    let _ = std::io::stdout().flush();
+    let _ = std::io::stderr().flush();
+    unsafe { libc::_exit(code) }
+}
+
+/// wait for a child with a wall-clock limit; on expiry the child is killed and None is returned
+pub fn wait_with_timeout(child: &mut std::process::Child, limit: std::time::Duration) -> Option<std::process::ExitStatus> {
+    let t0 = Instant::now();
+    loop {
+        match child.try_wait() {
+            Ok(Some(st)) => return Some(st),
+            Ok(None) => {}
+            Err(_) => return None,
+        }
+        if t0.elapsed() > limit {
+            let _ = child.kill();
+            let _ = child.wait();
+            return None;
+        }
+        std::thread::sleep(std::time::Duration::from_millis(20));
+    }
 }
 
 pub fn hex(b: &[u8]) -> String {
